@@ -346,6 +346,16 @@ where
             let dzi = &dz[rng.clone()];
             let dsi = &ds[rng.clone()];
             barrier += cone.compute_barrier(zi, si, dzi, dsi, α);
+            #[cfg(clarabel_verif)]
+            if crate::verif::step_log() {
+                // the term this cone contributed (its own return value, not a difference of sums)
+                let term = cone.compute_barrier(zi, si, dzi, dsi, α);
+                crate::verif::emit_simple(
+                    "ConeBarrierTerm",
+                    &[rng.start as i64, rng.end as i64],
+                    &[crate::verif::f64_of(α), crate::verif::f64_of(term)],
+                );
+            }
         }
         barrier
     }
